@@ -514,7 +514,10 @@ func c15LevelOf(kind string, t *c15Text) (level string, zones []string) {
 	if !strings.HasPrefix(kind, "ok-") && kind != "file-write" {
 		return c15MustFail, nil
 	}
-	if t.Class == "html" || t.Class == "binary" {
+	if t.Class == "html" || t.Class == "binary" || t.Class == "ctrl-in-rule" {
+		// "ctrl-in-rule": one control character other than tab, LF, CR inside
+		// a rule line (or as its first / last byte unless it is VT or FF) is
+		// binary content.
 		return c15MustFail, nil
 	}
 	if zones = c15Exotic(t.Bytes); len(zones) > 0 {
@@ -533,7 +536,7 @@ var c15HTTPFaults = []string{
 
 var c15Statuses = []int{403, 404, 404, 500, 503, 206, 203}
 
-var c15ExoticClasses = []string{"exotic-edge", "lone-cr", "ctrl-in-rule", "ctrl-in-comment", "html-after-rule", "over-long"}
+var c15ExoticClasses = []string{"exotic-edge", "lone-cr", "ctrl-in-rule", "ctrl-in-rule", "ctrl-in-comment", "html-after-rule", "over-long"}
 
 // genBeh chooses what the source of list l does in the next step.
 func (q *c15Seq) genBeh(l *c15ListM, cur *c15Snap, down bool) *c15Beh {
@@ -1219,6 +1222,8 @@ func c15KindClass(b *c15Beh) string {
 		return b.Kind
 	case b.Text.Class == "html" || b.Text.Class == "binary":
 		return b.Text.Class + "-content"
+	case b.Text.Class == "ctrl-in-rule":
+		return "control-byte-content"
 	case strings.HasPrefix(b.Kind, "status-"):
 		return "non-200-status"
 	case strings.HasPrefix(b.Kind, "cut-"):
